@@ -5,6 +5,7 @@ import json
 import random
 
 from .. import tlc
+from .. import tracecheck
 from ..common import MachineryError, NCPU
 from ..harness import cdriver, clientcheck
 
@@ -62,8 +63,17 @@ def conform(ck, plans, par=4):
     done = []
     for p in plans:
         traces, facts = [], []
-        for sc in p['scripts']:
-            lines, f = cdriver.run_script(p['impl'], p['cfg'], sc)
+        for k, sc in enumerate(p['scripts']):
+            if p.get('preempt') is not None:
+                # the threaded client under a pre-emptive seeded schedule (task switches inside
+                # blocks); snapshots marked "relax" (outputs compared as a bag)
+                ssd = p['preempt'] * 100003 + k
+                lines, f = cdriver.run_script(p['impl'], p['cfg'], sc, seed=ssd, preempt=True)
+                f['schedule_seed'] = ssd
+                for ln in lines:
+                    ln['st']['relax'] = True
+            else:
+                lines, f = cdriver.run_script(p['impl'], p['cfg'], sc)
             f['script'] = sc
             traces.append(lines)
             facts.append(f)
@@ -83,14 +93,32 @@ def conform(ck, plans, par=4):
                            trace_lines=sum(len(t) for t in traces), rejected=len(v.rejected))
         for t in traces:
             ck.distinct([[ln['ev'], ln['a']] for ln in t])
-        for i in v.rejected[:3]:
+        rejected = list(v.rejected)
+        if p.get('preempt') is not None and rejected:
+            # a schedule the block-to-block specification cannot follow is judged by the
+            # history contract alone
+            hv = tracecheck.validate('EioClientHistory', [traces[i] for i in rejected],
+                                     invariants=['CycleShape', 'StateAgrees'],
+                                     properties=['AppendOnly'])
+            ck.cov['schedules_outside_block_spec'] = \
+                ck.cov.get('schedules_outside_block_spec', 0) + len(hv.accepted)
+            for k, inv, txt in hv.inv_violations[:3]:
+                i = rejected[k]
+                ck.violation('client history contract %s violated under a pre-emptive schedule (%s)'
+                             % (inv, p['what']),
+                             {'impl': p['impl'], 'cfg': facts[i]['cfg'], 'script': facts[i]['script'],
+                              'schedule_seed': facts[i].get('schedule_seed'), 'tlc': txt,
+                              'kind': 'client-trace'})
+            rejected = [rejected[k] for k in hv.rejected]
+        for i in rejected[:3]:
             d = clientcheck.diagnose(traces[i], p['impl'], facts[i]['cfg'])
             ck.violation('client trace rejected by EioClient (%s, %s): stuck after line %s: %s' % (
                 p['impl'], p['what'], d.get('stuck_after_line'),
                 json.dumps({'ev': (d.get('line') or {}).get('ev'), 'a': (d.get('line') or {}).get('a'),
                             'observed': (d.get('line') or {}).get('st', {}).get('out')})[:500]),
                 {'impl': p['impl'], 'cfg': facts[i]['cfg'], 'script': facts[i]['script'],
-                 'diagnosis': d, 'kind': 'client-trace'})
+                 'schedule_seed': facts[i].get('schedule_seed'), 'diagnosis': d,
+                 'kind': 'client-trace'})
         for i, inv, txt in v.inv_violations[:3]:
             ck.violation('invariant %s violated on a real client execution (%s, %s)' % (
                 inv, p['impl'], p['what']),
@@ -123,7 +151,18 @@ def replay_client_trace(pid, path):
     if rp.get('kind') != 'client-trace':
         print(json.dumps(rp, indent=1)[:3000])
         return 1
-    lines, facts = cdriver.run_script(rp['impl'], rp['cfg'], rp['script'])
+    if rp.get('schedule_seed') is not None:
+        lines, facts = cdriver.run_script(rp['impl'], rp['cfg'], rp['script'],
+                                          seed=rp['schedule_seed'], preempt=True)
+        for ln in lines:
+            ln['st']['relax'] = True
+        hv = tracecheck.validate('EioClientHistory', [lines], invariants=['CycleShape', 'StateAgrees'],
+                                 properties=['AppendOnly'])
+        if hv.accepted and not hv.inv_violations:
+            print('replay: pre-emptive schedule satisfies the client history contract')
+            return 0
+    else:
+        lines, facts = cdriver.run_script(rp['impl'], rp['cfg'], rp['script'])
     v = clientcheck.validate([lines], rp['impl'], facts['cfg'], invariants=TRACE_INVS)
     if v.accepted and not v.inv_violations:
         print('replay: trace accepted, all invariants hold')
